@@ -45,6 +45,25 @@ TYPES = {
     "simserial": (None, "string", PRELOAD("property", "simserial"), {}),
     "subscriberid": (None, "string", PRELOAD("property", "subscriberid"), {}),
     "audit": (None, "binary", {}, {}),
+    # older spellings of the same metadata rows (still in the type table): each names the preload its words say
+    "start time": (None, "dateTime", PRELOAD("timestamp", "start"), {}),
+    "get start time": (None, "dateTime", PRELOAD("timestamp", "start"), {}),
+    "end time": (None, "dateTime", PRELOAD("timestamp", "end"), {}),
+    "get end time": (None, "dateTime", PRELOAD("timestamp", "end"), {}),
+    "get today": (None, "date", PRELOAD("date", "today"), {}),
+    "device id": (None, "string", PRELOAD("property", "deviceid"), {}),
+    "get device id": (None, "string", PRELOAD("property", "deviceid"), {}),
+    "get phone number": (None, "string", PRELOAD("property", "phonenumber"), {}),
+    "sim id": (None, "string", PRELOAD("property", "simserial"), {}),
+    "get sim id": (None, "string", PRELOAD("property", "simserial"), {}),
+    "subscriber id": (None, "string", PRELOAD("property", "subscriberid"), {}),
+    "get subscriber id": (None, "string", PRELOAD("property", "subscriberid"), {}),
+    "uri:deviceid": (None, "string", PRELOAD("property", "uri:deviceid"), {}),
+    "uri:username": (None, "string", PRELOAD("property", "uri:username"), {}),
+    "uri:email": (None, "string", PRELOAD("property", "uri:email"), {}),
+    "uri:phonenumber": (None, "string", PRELOAD("property", "uri:phonenumber"), {}),
+    "uri:simserial": (None, "string", PRELOAD("property", "uri:simserial"), {}),
+    "uri:subscriberid": (None, "string", PRELOAD("property", "uri:subscriberid"), {}),
     # actions
     "start-geopoint": (None, "geopoint", {}, {}),
     "background-audio": (None, "binary", {}, {}),
